@@ -491,3 +491,45 @@ def check_u8_tables(ctx, rule, P, fns, what="share identifier"):
             n += 1
             ctx.ob(rule, "%s/%s" % (f.key, s.callee[0].split("::")[-1]), hi < N, "table of %d slot(s) looked up by a value that can be as large as %d (%s): %s" % (N, hi, what, "every value has a slot" if hi < N else "values %d..=%d fall into the `None` arm" % (N, hi)), where=where(f, bb))
     return n
+
+
+# ---------------------------------------------------------------------------
+# share sets are sets: validation must not depend on the order of the list
+
+
+def order_sensitive_comparisons(P, fn):
+    """Comparisons `<`, `<=`, `>`, `>=` between the identifiers of two elements of a share list, in fn or its closures:
+    [(function, description)].  A share set is valid in any order, so such a comparison cannot decide validity."""
+    out = []
+    fns = [fn] + [g for g in P.fns.values() if g.kind == "Closure" and (g.j.get("parent_key") or "").startswith(fn.key)]
+    for g in fns:
+        ev = evaluate(g)
+        terms = [ev.ret] + list(ev.switch.values()) + [a for s in ev.sites.values() for a in s.args]
+        seen = set()
+        for t in terms:
+            if t is None:
+                continue
+            for x in subterms(strip_sites(t)):
+                if x in seen:
+                    continue
+                seen.add(x)
+                cmp_ = None
+                if x.op == "bin" and x.a[0] in ("Lt", "Le", "Gt", "Ge"):
+                    cmp_ = (x.a[0], x.a[1], x.a[2])
+                elif x.op == "call" and B.cname(x) in ("PartialOrd::lt", "PartialOrd::le", "PartialOrd::gt", "PartialOrd::ge") and len(x.a[1]) == 2:
+                    cmp_ = (B.cname(x).split("::")[-1], x.a[1][0], x.a[1][1])
+                if cmp_ is None:
+                    continue
+                ids = [[y for y in subterms(side) if y.op == "call" and B.cname(y).endswith("::identifier")] for side in cmp_[1:]]
+                if ids[0] and ids[1]:
+                    out.append((g, "%s %s %s" % (show(cmp_[1], 3), cmp_[0], show(cmp_[2], 3))))
+    return out
+
+
+def check_order_insensitive(ctx, rule, P, fn_keys):
+    for fk in fn_keys:
+        f = P.fns.get(fk)
+        if f is None:
+            continue
+        bad = order_sensitive_comparisons(P, f)
+        ctx.ob(rule, fk, not bad, "share-set validation in %s does not compare identifiers of list neighbours by order%s" % (fk, "" if not bad else ": " + "; ".join(d for _, d in bad[:2]) + " - a valid share set handed over in another order is refused"), where=where(bad[0][0]) if bad else where(f))
